@@ -19,6 +19,7 @@ pub mod c35;
 pub mod c36;
 pub mod c37;
 pub mod c38;
+pub mod c39;
 pub mod c40;
 
 pub fn run(id: &str, run: &mut Run) {
@@ -42,6 +43,7 @@ pub fn run(id: &str, run: &mut Run) {
         "C29" => c29::run(run),
         "C36" => c36::run(run),
         "C38" => c38::run(run),
+        "C39" => c39::run(run),
         _ => machinery_failure(&format!("no check for property {}", id)),
     }
 }
@@ -67,6 +69,7 @@ pub fn replay(id: &str, case: &Value, run: &mut Run) {
         "C29" => c29::replay(case, run),
         "C36" => c36::replay(case, run),
         "C38" => c38::replay(case, run),
+        "C39" => c39::replay(case, run),
         _ => machinery_failure(&format!("no replay for property {}", id)),
     }
 }
